@@ -5,6 +5,7 @@ mod report;
 mod rustc_oracle;
 mod spaces;
 mod spec;
+mod synx;
 mod util;
 
 fn main() {
@@ -43,6 +44,7 @@ fn main() {
                 2
             }
         },
+        "C08" => checks::c08::run(&tier, only.as_ref()),
         "C03" => checks::c03::run(&tier, only.as_ref()),
         _ => {
             eprintln!("unknown property {id}");
